@@ -9,7 +9,7 @@ from gen_programs import Gen, Scope
 
 PID = "C02"
 MANIFEST = {
-    "text": "71 Coq theorems.  C02ALL round: C02's theorems now speak about the evaluator the ALL / TEXT-EVAL streams run "
+    "text": "72 Coq theorems.  C02ALL round: C02's theorems now speak about the evaluator the ALL / TEXT-EVAL streams run "
             "(EvalAll.binop_all o / builtin_all o: EVERY row of the regenerated built-in table and `^`, library behaviour as "
             "fields of the oracle record o), for EVERY oracle o: ops_wf / ops_nm / old-cells-untouched with NO hypothesis on o "
             "(the 17 new arms are pure and return a number, string or null; `^` is eval_binop with the oracle's powf), "
@@ -19,7 +19,7 @@ MANIFEST = {
             "captured cell index).  Instantiated: C02_store_extension_invariance_all, C02_eval_twice_exact_all / _all / "
             "_equals_all / _after_any_program_all, C02_old_cells_untouched_all, C02_cfg_wf_preserved_all / "
             "_after_any_program_all, C02_weakening_all, C02_let_abstraction_seq_partial_all / _seq_multi_partial_all, "
-            "C02_let_program_all / _multi_all.  The clock: time_now() is the constant field o_now (one oracle record = one "
+            "C02_let_program_all / _multi_all / _multi_after_any_prefix_all.  The clock: time_now() is the constant field o_now (one oracle record = one "
             "clock reading), so the model forces no exclusion on eval-twice beyond 'both evaluations under the same oracle "
             "record'; with the clock advancing between the evaluations the statement is kept as the Prop "
             "C02_eval_twice_across_clock_full and REFUTED by `time_now()` (C02_eval_twice_across_clock_refuted) — the "
